@@ -53,6 +53,8 @@ def impl_multseq(res, bases):
 def oracle_multseq(res, bases, got):
     """sound: every entry is a base (pred -1) or an integer multiple of an earlier entry;
     complete: refusal iff some requested resolution is not a multiple of any base"""
+    if bases is None and not res:
+        return got == "ValueError"          # no resolution and no base: nothing to derive from, must be refused
     bs = {min(res)} if bases is None else set(bases)
     underivable = any(all(r % b for b in bs) for r in res)
     if got == "ValueError":
@@ -101,7 +103,7 @@ def part_multseq(ctx):
     # corpus: D17 (bases {2,4}), mixed predecessors, duplicates, base larger than a target
     cases += [([8], [2, 4]), ([2, 3, 6], None), ([6, 2, 3], [1]), ([4, 8, 16, 32], [4]), ([12, 12, 6], [6, 6]), ([2, 10], [4]),
               ([5, 10, 25, 50, 100], [5]), ([6], [4, 6]), ([9, 6, 18], [3, 2]), ([4, 27], [2, 9]), ([25], [2, 3, 5]), ([8, 27, 16], [4, 9]),
-              ([12, 30, 45], [6, 10, 15]), ([4, 6, 27], [2, 3, 9])]
+              ([12, 30, 45], [6, 10, 15]), ([4, 6, 27], [2, 3, 9]), ([], None), ([], [2]), ([3, 3], [3, 3])]
     # model: families per Eval
     per = 40
     exprs = []
@@ -660,6 +662,136 @@ def part_dtypes(ctx):
     return len(cases)
 
 
+# ---------------------------- 3d. audit of the public parameters (glue), fixed deterministic scenarios
+Q_SIZES = [10, 130, 47]                # a single-bin chromosome first
+Q_PX = [[0, 0, 1], [0, 1, 2], [1, 1, 3], [1, 4, 1], [2, 3, 5], [3, 3, 1], [3, 7, 2], [6, 7, 4], [7, 7, 9], [13, 18, 2], [18, 18, 1]]
+
+
+def _q_level_bad(label, uri, k, px=None, binsize=10):
+    blocks = fixed_blocks(Q_SIZES, binsize)
+    px = Q_PX if px is None else px
+    r = G.read_cooler(uri)
+    eb, ep = (G.flat_of(blocks), px) if k == 1 else G.oracle_coarsen(blocks, px, k)
+    if r["bins"] != [list(x) for x in eb] or r["pixels"] != [list(p) for p in ep]:
+        return {"what": label, "uri": str(uri), "k": k, "pixels": r["pixels"][:20], "expected": [list(p) for p in ep][:20]}
+    return None
+
+
+def _q_listing_bad(label, path, want):
+    from cooler import fileops
+    got = sorted(fileops.list_coolers(str(path)), key=lambda g: int(g.rsplit("/", 1)[1]))
+    exp = [f"/resolutions/{r}" for r in sorted(want)]
+    if got != exp or not fileops.is_multires_file(str(path)):
+        return {"what": label + ": levels", "got": got, "expected": exp}
+    return None
+
+
+def sq_base_uri_and_rerun(d):
+    import cooler
+    a = d / "a.cool"
+    G.make_cooler(a, fixed_blocks(Q_SIZES, 10), Q_PX, True)
+    m1 = d / "m1.mcool"
+    cooler.zoomify_cooler(str(a), str(m1), [20], chunksize=5)
+    m2 = d / "m2.mcool"
+    cooler.zoomify_cooler(f"{m1}::resolutions/20", str(m2), [80, 40], chunksize=3)     # base = URI into a multi-collection file
+    bad = _q_listing_bad("base given as URI into an mcool", m2, [20, 40, 80])
+    for r in (20, 40, 80):
+        bad = bad or _q_level_bad(f"level {r} from a base inside an mcool", f"{m2}::resolutions/{r}", r // 10)
+    cooler.zoomify_cooler(str(a), str(m2), [30], chunksize=3)                           # existing output file is replaced
+    bad = bad or _q_listing_bad("re-run onto an existing mcool", m2, [10, 30]) or _q_level_bad("level 30 after re-run", f"{m2}::resolutions/30", 3)
+    return bad
+
+
+def sq_duplicates_and_dtypes(d):
+    import cooler
+    a = d / "a.cool"
+    G.make_cooler(a, fixed_blocks(Q_SIZES, 10), Q_PX, True)
+    m = d / "m.mcool"
+    cooler.zoomify_cooler(str(a), str(m), [20, 20, 40, 10, 10], chunksize=3)            # duplicates, unsorted, containing the base
+    bad = _q_listing_bad("resolutions with duplicates and the base", m, [10, 20, 40])
+    for r in (10, 20, 40):
+        bad = bad or _q_level_bad(f"level {r} (duplicates)", f"{m}::resolutions/{r}", r // 10)
+    m = d / "t.mcool"
+    cooler.zoomify_cooler([str(a)], str(m), [40, 20], chunksize=2, dtypes={"count": np.float64})
+    for r in (10, 20, 40):
+        bad = bad or _q_level_bad(f"level {r} (dtypes dict)", f"{m}::resolutions/{r}", r // 10)
+    dts = {r: str(cooler.Cooler(f"{m}::resolutions/{r}").pixels().dtypes["count"]) for r in (10, 20, 40)}
+    if not bad and dts != {10: "int32", 20: "float64", 40: "float64"}:      # the base is a copy, derived levels take the requested dtype
+        bad = {"what": "dtypes={'count': float64}", "got": dts}
+    return bad
+
+
+def sq_cli_flags(d):
+    from cooler.cli import cli
+    from click.testing import CliRunner
+    a = d / "a.cool"
+    G.make_cooler(a, fixed_blocks(Q_SIZES, 10), Q_PX, True)
+    r = CliRunner().invoke(cli, ["zoomify", "-r", "40,20", "-p", "2", "-c", "2", str(a)])          # default output name, -p, -c
+    if r.exit_code != 0:
+        return {"what": "cooler zoomify -p 2 (default output)", "exit": r.exit_code, "exception": repr(r.exception)}
+    m = d / "a.mcool"
+    if not m.exists():
+        return {"what": "default output name a.cool -> a.mcool", "files": sorted(x.name for x in d.iterdir())}
+    bad = _q_listing_bad("cooler zoomify default output", m, [10, 20, 40])
+    for res in (20, 40):
+        bad = bad or _q_level_bad(f"CLI level {res}", f"{m}::resolutions/{res}", res // 10)
+    b = d / "b.cool"
+    bpx = [[0, 0, 3], [1, 2, 4], [1, 9, 1], [10, 12, 2]]
+    G.make_cooler(b, fixed_blocks(Q_SIZES, 15), bpx, True)
+    m5 = d / "m5.mcool"
+    r = CliRunner().invoke(cli, ["zoomify", "-r", "20,45", "-i", str(b), "-o", str(m5), str(a)])    # an additional base
+    if r.exit_code != 0:
+        return {"what": "cooler zoomify -i", "exit": r.exit_code, "exception": repr(r.exception)}
+    bad = bad or _q_listing_bad("cooler zoomify -i", m5, [10, 15, 20, 45])
+    bad = bad or _q_level_bad("level 20 from base 10", f"{m5}::resolutions/20", 2)
+    bad = bad or _q_level_bad("level 45 from base 15", f"{m5}::resolutions/45", 3, px=bpx, binsize=15)
+    bad = bad or _q_level_bad("base 15 copied", f"{m5}::resolutions/15", 1, px=bpx, binsize=15)
+    return bad
+
+
+def sq_empty_base(d):
+    import cooler
+    a = d / "e.cool"
+    G.make_cooler(a, fixed_blocks(Q_SIZES, 10), [], True)
+    m = d / "e.mcool"
+    cooler.zoomify_cooler(str(a), str(m), [20, 40], chunksize=3)
+    bad = _q_listing_bad("empty base", m, [10, 20, 40])
+    for r in (10, 20, 40):
+        bad = bad or _q_level_bad(f"level {r} of an empty base", f"{m}::resolutions/{r}", r // 10, px=[])
+        if not bad and cooler.Cooler(f"{m}::resolutions/{r}").info["nnz"] != 0:
+            bad = {"what": f"nnz of level {r} of an empty base"}
+    return bad
+
+
+SCENARIOS = {"base URI into an mcool / re-run onto an existing file": sq_base_uri_and_rerun,
+             "duplicate+unsorted resolutions / dtypes dict": sq_duplicates_and_dtypes,
+             "CLI default output, -p, -c, -i": sq_cli_flags, "empty base cooler": sq_empty_base}
+
+
+def run_scenario(ctx_tmp, label, table):
+    import pathlib
+    import shutil
+    import tempfile
+    d = pathlib.Path(tempfile.mkdtemp(dir=str(ctx_tmp), prefix="sc_"))
+    try:
+        st, res = G.guarded(lambda: table[label](d), 180)
+    finally:
+        shutil.rmtree(d, ignore_errors=True)
+    if st != "ok":
+        return {"what": label, "exception": st, "type": res}
+    return res
+
+
+def part_params(ctx):
+    for label in SCENARIOS:
+        case = {"fn": "param-scenario", "label": label}
+        ctx.case(case, nontrivial=True, kind="params")
+        bad = run_scenario(ctx.tmp, label, SCENARIOS)
+        if bad:
+            ctx.fail(case, bad, None)
+    return len(SCENARIOS)
+
+
 # -------------------------------------------------------------------------- 4. CLI
 def ref_expand(spec, curres, maxres):
     """independent reading of the documented -r grammar (help text of `cooler zoomify`)"""
@@ -805,6 +937,7 @@ def run(ctx):
     scopes["zoomify_runs"] = part_zoom(ctx)
     scopes["zoomify_column_runs"] = part_cols(ctx)
     scopes["zoomify_dtype_runs"] = part_dtypes(ctx)
+    scopes["param_scenarios"] = part_params(ctx)
     scopes["cli_runs"] = part_cli(ctx)
     ctx.exhaustive = True
     ctx.extra["scopes"] = scopes
@@ -812,6 +945,8 @@ def run(ctx):
 
 def replay(ctx, case):
     fn = case["fn"]
+    if fn == "param-scenario":
+        return run_scenario(ctx.tmp, case["label"], SCENARIOS) is None
     if fn == "get_multiplier_sequence":
         return oracle_multseq(case["resolutions"], case["bases"], impl_multseq(case["resolutions"], case["bases"]))
     if fn == "preferred_sequence":
